@@ -328,7 +328,49 @@ func (s *dlScenario) run(w *stallWatch) (verdict string, ok bool) {
 	if !stream {
 		conn = pacedDgram{pc}
 	}
+	// real sockets: a peer on 127.0.0.1 that answers the query with the same schedule
+	loop := s.Transport == "udp-loopback"
+	var peer net.PacketConn
+	stopPeer := make(chan struct{})
+	peerDone := make(chan struct{})
+	if loop {
+		var err error
+		if peer, err = net.ListenPacket("udp", "127.0.0.1:0"); err != nil {
+			return "", false
+		}
+		go func() {
+			defer close(peerDone)
+			buf := make([]byte, 4096)
+			n, src, err := peer.ReadFrom(buf)
+			if err != nil || n < 2 {
+				return
+			}
+			start := time.Now()
+			for i := 0; ; i++ {
+				at, data, ok := arr(i)
+				if !ok {
+					<-stopPeer
+					return
+				}
+				if d := time.Until(start.Add(at)); d > 0 {
+					select {
+					case <-stopPeer:
+						return
+					case <-time.After(d):
+					}
+				} else {
+					select {
+					case <-stopPeer:
+						return
+					default:
+					}
+				}
+				peer.WriteTo(data, src)
+			}
+		}()
+	}
 	c := &dns.Client{Timeout: time.Duration(s.TimeoutMs) * time.Millisecond, ReadTimeout: time.Duration(s.ReadMs) * time.Millisecond}
+	t0 := time.Now() // before the context is made: its deadline, like the client's, then lies at least D after t0
 	ctx := context.Background()
 	if s.CtxMs != 0 {
 		var cancel context.CancelFunc
@@ -343,11 +385,14 @@ func (s *dlScenario) run(w *stallWatch) (verdict string, ok bool) {
 		elapsed time.Duration
 	}
 	resc := make(chan result, 1)
-	t0 := time.Now()
 	go func() {
 		var rep *dns.Msg
 		var err error
-		if s.API == "ExchangeWithConn" {
+		if s.API == "Exchange" {
+			rep, _, err = c.Exchange(q, peer.LocalAddr().String())
+		} else if s.API == "ExchangeContext" {
+			rep, _, err = c.ExchangeContext(ctx, q, peer.LocalAddr().String())
+		} else if s.API == "ExchangeWithConn" {
 			rep, _, err = c.ExchangeWithConn(q, &dns.Conn{Conn: conn})
 		} else {
 			rep, _, err = c.ExchangeWithConnContext(ctx, q, &dns.Conn{Conn: conn})
@@ -368,6 +413,12 @@ func (s *dlScenario) run(w *stallWatch) (verdict string, ok bool) {
 	}
 	t1 := time.Now()
 	pc.Close()
+	if loop { // a silent peer lets even a sliding read timeout run out
+		close(stopPeer)
+		peer.SetDeadline(time.Now())
+		<-peerDone
+		defer peer.Close()
+	}
 	if !returned {
 		select { // the exchange ends once its connection is closed
 		case <-resc:
@@ -414,7 +465,11 @@ func (s *dlScenario) modelArgs() []string {
 	// the model needs the foreign stream only up to the deadline (it is cut there anyway)
 	count := 0
 	if s.ForeignUs > 0 && s.IDs != "" {
-		count = (s.DeadlineMs*1000-s.ForeignFrom)/s.ForeignUs + 3
+		until := s.DeadlineMs * 1000
+		if s.MatchMs >= 0 && s.MatchMs*1000 < until { // nothing after the reply that is returned matters
+			until = s.MatchMs * 1000
+		}
+		count = (until-s.ForeignFrom)/s.ForeignUs + 3
 		if count < 0 {
 			count = 0
 		}
@@ -450,7 +505,9 @@ func genDeadlineScenarios(r *Rng, tier string) []*dlScenario {
 	apis := []string{"ExchangeWithConn", "ExchangeWithConnContext"}
 	// (a) nothing matches: every way of configuring the deadline x rates from a flood to just below the timeout
 	type cfg struct{ to, rd, ctx int }
-	cfgs := []cfg{{300, 0, 0}, {0, 300, 0}, {0, 0, 300}, {700, 0, 250}, {250, 0, 700}, {0, 700, 250}, {0, 250, 700}, {150, 5000, 0}, {0, 0, 1500}, {1000, 0, 0}}
+	cfgs := []cfg{{300, 0, 0}, {0, 300, 0}, {0, 0, 300}, {700, 0, 250}, {250, 0, 700}, {0, 700, 250}, {0, 250, 700}, {150, 5000, 0}, {0, 0, 1500}, {1000, 0, 0},
+		// one of the two far beyond the other plus the slack: taking the wrong one, or only one of them, is seen
+		{20000, 0, 300}, {0, 30000, 250}, {300, 0, 20000}, {0, 350, 30000}, {400, 30000, 0}}
 	rates := func(dms int) []int { // microseconds between foreign replies
 		return []int{0, 300, 1000, 5000, 20000, dms * 1000 / 3, dms * 1000 * 9 / 10}
 	}
@@ -470,7 +527,7 @@ func genDeadlineScenarios(r *Rng, tier string) []*dlScenario {
 		}
 	}
 	// (b) the matching reply arrives long after the deadline, behind a sustained foreign stream
-	for _, c := range []cfg{{300, 0, 0}, {0, 0, 300}, {0, 400, 0}, {2000, 0, 200}} {
+	for _, c := range []cfg{{300, 0, 0}, {0, 0, 300}, {0, 400, 0}, {2000, 0, 200}, {20000, 0, 200}, {250, 0, 20000}} {
 		s0 := &dlScenario{TimeoutMs: c.to, ReadMs: c.rd, CtxMs: c.ctx}
 		dms := int(s0.deadline() / time.Millisecond)
 		for _, us := range []int{1000, dms * 500} {
@@ -484,11 +541,26 @@ func genDeadlineScenarios(r *Rng, tier string) []*dlScenario {
 		}
 	}
 	// (d) streams: a reply frame that trickles in more slowly than the deadline allows, silence, and a prompt reply
-	for _, c := range []cfg{{300, 0, 0}, {0, 0, 300}, {0, 300, 900}} {
+	for _, c := range []cfg{{300, 0, 0}, {0, 0, 300}, {0, 300, 900}, {20000, 0, 300}, {300, 0, 20000}} {
 		add(&dlScenario{Transport: "tcp", API: apis[1], TimeoutMs: c.to, ReadMs: c.rd, CtxMs: c.ctx, ForeignUs: 100000, ForeignFrom: 1000, MatchMs: -1})
 		add(&dlScenario{Transport: "tcp", API: apis[1], TimeoutMs: c.to, ReadMs: c.rd, CtxMs: c.ctx, MatchMs: -1})
 	}
 	add(&dlScenario{Transport: "tcp", API: apis[1], TimeoutMs: int(dlFarBefore / time.Millisecond), MatchMs: 100})
+	// (e) the same through Client.Exchange / Client.ExchangeContext (they dial themselves) against a peer on 127.0.0.1
+	for _, c := range []cfg{{300, 0, 0}, {0, 0, 300}, {0, 400, 20000}, {20000, 0, 250}} {
+		api := "ExchangeContext"
+		if c.ctx == 0 {
+			api = "Exchange"
+		}
+		s0 := &dlScenario{TimeoutMs: c.to, ReadMs: c.rd, CtxMs: c.ctx}
+		dms := int(s0.deadline() / time.Millisecond)
+		for _, us := range []int{2000, dms * 600} {
+			add(&dlScenario{Transport: "udp-loopback", API: api, TimeoutMs: c.to, ReadMs: c.rd, CtxMs: c.ctx, ForeignUs: us, ForeignFrom: us / 2, MatchMs: -1})
+		}
+		add(&dlScenario{Transport: "udp-loopback", API: api, TimeoutMs: c.to, ReadMs: c.rd, CtxMs: c.ctx, ForeignUs: 5000, ForeignFrom: 0, MatchMs: dms + int(dlSlack/time.Millisecond) + 3000})
+	}
+	add(&dlScenario{Transport: "udp-loopback", API: "Exchange", TimeoutMs: int(dlFarBefore / time.Millisecond), ForeignUs: 3000, MatchMs: 150})
+	add(&dlScenario{Transport: "udp-loopback", API: "ExchangeContext", CtxMs: int(dlFarBefore / time.Millisecond), ReadMs: 30000, ForeignUs: 3000, MatchMs: 150})
 	return out
 }
 
@@ -526,6 +598,10 @@ func runDeadlines(r *Rng, tier string) {
 			stat["infra_stall"]++
 			continue
 		}
+		if s.Transport == "udp-loopback" && s.Want != s.Got && strings.HasPrefix(s.Want, "ok:") && s.Got == "err:timeout" {
+			stat["infra_timeout"]++ // the kernel may drop a datagram; a lost reply is not a finding
+			continue
+		}
 		stat["deadline_checked"]++
 		stat["deadline_"+s.Transport+"_"+strings.SplitN(s.Want, ":", 2)[0]]++
 		if s.Transport == "udp" {
@@ -539,6 +615,8 @@ func runDeadlines(r *Rng, tier string) {
 			key := "C12/Exchange/udp-deadline"
 			if s.Transport == "tcp" {
 				key = "C12/Exchange/tcp-deadline"
+			} else if s.Transport == "udp-loopback" {
+				key = "C12/Exchange/loopback-udp-deadline"
 			}
 			Viol(key, "the exchange did not end with the matching reply or, at the earlier of client timeout and context deadline, with a timeout", s)
 		}
